@@ -206,7 +206,7 @@ func exhaustiveDocs(thorough bool) []exDoc {
 func exhaustiveFamily(h *hx.H) {
 	s := fixedSchema()
 	e := &enumerator{s: s}
-	limit := 1000
+	limit := 500
 	if h.Thorough() {
 		limit = 2500
 	}
@@ -225,7 +225,7 @@ func exhaustiveFamily(h *hx.H) {
 		for _, w := range roots {
 			w := w
 			h.Case(func(*rng.R) sexp.Node {
-				n := runCase(caseInput{s: s, text: d.text, vars: nil, env: map[string]bool{},
+				n := runCase(caseInput{s: s, text: d.text, vars: nil, env: map[string]*bool{},
 					mkW: func(parsedDoc) *outcome { return w }})
 				if strings.HasPrefix(d.text, "{") {
 					n.List[6].List = append(n.List[6].List, sexp.Sym("exhaustive"))
@@ -312,7 +312,7 @@ func leafFamily(h *hx.H) {
 			l := l
 			h.Case(func(*rng.R) sexp.Node {
 				w := &outcome{kind: "obj", tag: "Q", names: []string{f.name}, fields: map[string]*outcome{f.name: {kind: "leaf", leaf: l}}}
-				n := runCase(caseInput{s: s, text: "{" + f.name + "}", env: map[string]bool{}, mkW: func(parsedDoc) *outcome { return w }})
+				n := runCase(caseInput{s: s, text: "{" + f.name + "}", env: map[string]*bool{}, mkW: func(parsedDoc) *outcome { return w }})
 				n.List[6].List = append(n.List[6].List, sexp.Sym("exhaustive"), sexp.Sym("leaf-family"))
 				return n
 			})
